@@ -473,6 +473,7 @@ def kvAt (net : Net) : Nat → Nat → String → Nat → KvOp → Net × KvOut
     if nd0.crashed then (net, .err .unreachable) else
     match findSucc net FUEL n h with
     | .err .gone => (net, .err .kvStale)
+    | .err .noSuccessor => (net, .err .kvStale)      -- C04 repair: a node still joining answers retryably
     | .err e => (net, .err e)
     | .found succ =>
       if succ != n then kvAt net fuel succ k h op else
